@@ -8,6 +8,7 @@ import AdaptaVerif.Lemmas.OrthVisLines
 import AdaptaVerif.Lemmas.OrthVisOrder
 import AdaptaVerif.Lemmas.OrthVisCover
 import AdaptaVerif.Lemmas.OrthVisProv
+import AdaptaVerif.Lemmas.OrthVisSweep
 
 namespace AdaptaVerif.Props.C05OrthVis
 open AdaptaVerif.Model.OrthVis AdaptaVerif.Lemmas.OrthVis
@@ -516,6 +517,42 @@ theorem lines_disjoint (s : Scene) :
     obtain ⟨v', hv', rfl⟩ := List.mem_map.mp hv
     exact (rect_bounds s v' hv').2
 
+/-- **The declarative scan line is what the sweep maintains.**  Run the event loop of
+    `generateStaticOrthogonalVisGraph` (`sweepLines`: positions in increasing order; pass 1 inserts the
+    rectangles opening at the position, pass 2 looks at the scan line, pass 3 removes those closing there) over
+    any strictly increasing list of positions that contains every rectangle's `y0` and `y1`: at every position
+    `p` pass 2 sees exactly the rectangles with `y0 ≤ p ≤ y1`, i.e. `activeAt rects p` — for every list of
+    rectangles with `y0 ≤ y1`, whatever the order of the events at one position.  (The horizontal sweep is the
+    same statement about the transposed rectangles.) -/
+theorem sweep_scanline_is_activeAt (rects : List Rect) (hwf : ∀ r ∈ rects, r.y0 ≤ r.y1) (ps : List Rat)
+    (hsort : ps.Pairwise (· < ·)) (hcov : ∀ r ∈ rects, r.y0 ∈ ps ∧ r.y1 ∈ ps) :
+    ∀ x ∈ sweepLines rects ps [],
+      (∀ i, i ∈ x.2 ↔ ∃ r, rects[i]? = some r ∧ r.y0 ≤ x.1 ∧ x.1 ≤ r.y1) ∧
+      (∀ r, r ∈ activeAt rects x.1 ↔ ∃ i ∈ x.2, rects[i]? = some r) := by
+  intro x hx
+  have hinv : SweepInv rects ps [] := by
+    intro i
+    constructor
+    · intro h; simp at h
+    · rintro ⟨r, hr, h0, _⟩
+      exact absurd (h0 _ (hcov r (List.mem_of_getElem? hr)).1) (by grind)
+  have h1 := sweepLines_spec rects hwf ps [] hsort
+    (fun r hr => ⟨Or.inl (hcov r hr).1, Or.inl (hcov r hr).2⟩) hinv x hx
+  refine ⟨h1, ?_⟩
+  intro r
+  unfold activeAt
+  simp only [List.mem_filter, decide_eq_true_eq]
+  constructor
+  · rintro ⟨hr, h0, h1'⟩
+    obtain ⟨i, hi⟩ := List.getElem?_of_mem hr
+    exact ⟨i, (h1 i).mpr ⟨r, hi, h0, h1'⟩, hi⟩
+  · rintro ⟨i, hi, hget⟩
+    obtain ⟨r', hr', h0, h1'⟩ := (h1 i).mp hi
+    rw [hget] at hr'
+    injection hr' with e
+    subst e
+    exact ⟨List.mem_of_getElem? hget, h0, h1'⟩
+
 /-- a path of graph edges from `u` to `v` all of whose vertices lie on the horizontal line `y` -/
 inductive HPath (G : List (GV × GV)) (y : Rat) : GV → GV → Prop
   | refl (u : GV) : u.y = y → HPath G y u u
@@ -831,5 +868,8 @@ def demoScene3 : Scene :=
        (!(decide (R.x0 < 6) && decide (6 < R.x1)) || decide (R.y1 ≤ 3) || decide (9 ≤ R.y0))
 #guard demoScene3.graph.contains (⟨0, 3, .conn 0⟩, ⟨2, 3, .node⟩) && demoScene3.graph.contains (⟨4, 3, .node⟩, ⟨6, 3, .node⟩) &&
        demoScene3.graph.contains (⟨6, 3, .node⟩, ⟨6, 5, .node⟩) && demoScene3.graph.contains (⟨6, 7, .node⟩, ⟨6, 9, .conn 1⟩)
+
+-- non-vacuity of `sweep_scanline_is_activeAt`: two boxes sharing a side line; the scan line at the three positions
+#guard (sweepLines [⟨0, 0, 1, 2⟩, ⟨3, 2, 4, 5⟩] [0, 2, 5] []).map (·.2) == [[0], [0, 1], [1]]
 
 end AdaptaVerif.Props.C05OrthVis
